@@ -154,6 +154,9 @@ func (a *Array) AsFloat() ([]float64, error) {
 
 readArray:
 	for {
+		if a.off >= len(a.tape.Tape) {
+			return nil, errors.New("corrupt input: array is not terminated")
+		}
 		tag := Tag(a.tape.Tape[a.off] >> 56)
 		a.off++
 		switch tag {
@@ -193,6 +196,9 @@ func (a *Array) AsInteger() ([]int64, error) {
 	dst := make([]int64, 0, lenEst)
 readArray:
 	for {
+		if a.off >= len(a.tape.Tape) {
+			return nil, errors.New("corrupt input: array is not terminated")
+		}
 		tag := Tag(a.tape.Tape[a.off] >> 56)
 		a.off++
 		switch tag {
@@ -244,6 +250,9 @@ func (a *Array) AsUint64() ([]uint64, error) {
 	dst := make([]uint64, 0, lenEst)
 readArray:
 	for {
+		if a.off >= len(a.tape.Tape) {
+			return nil, errors.New("corrupt input: array is not terminated")
+		}
 		tag := Tag(a.tape.Tape[a.off] >> 56)
 		a.off++
 		switch tag {
